@@ -83,3 +83,232 @@ def correspond(ctx, hists, component="followup"):
                 break
         ctx.traces += 1
     return runs
+
+
+# ------------------------------------------------------------------------------------------------
+# direct oracle: the clauses of C09 evaluated on what the REAL objects did (independent of the model)
+# ------------------------------------------------------------------------------------------------
+SIG_DUP2 = "C09:one-outstanding:two-screening-methods"
+SIG_MIXED = "C09:two-screening-methods:mixed-deployment-exit"
+SIG_STALE_POOLED = "C09:stale:pooled-or-queued-before-later-tagging-survey"
+
+
+def ceil_frac(fr):
+    fr = Fraction(fr)
+    return -((-fr.numerator) // fr.denominator)
+
+
+def mean_last(w, rates):
+    if not w or len(rates) < w:
+        return Fraction(0)
+    return sum(rates[-w:], Fraction(0)) / w
+
+
+def expected_rates(mp, e):
+    """the redundancy-filtered rate recomputed from the plan's own list of detections"""
+    rates = e["rates"]
+    sw, lw = e["windows"]
+    if sw is not None:                       # stationary planner
+        if len(rates) == 1:
+            return Fraction(0), Fraction(0)  # the constructor starts both rolling rates at 0
+        return mean_last(sw, rates), mean_last(lw, rates)
+    f = mp["filter"]
+    if len(rates) == 1 or f == "recent":
+        return rates[-1], Fraction(0)
+    if f == "max":
+        return max(rates), Fraction(0)
+    return sum(rates, Fraction(0)) / len(rates), Fraction(0)
+
+
+def oracle(ctx, hist, w):
+    """returns a dict of what happened (for coverage keys); calls ctx.violate for every failed clause"""
+    nm = len(hist["methods"])
+    single = nm == 1
+    inp = {"history": hist}
+    seen = {"instant": 0, "pool": 0, "reinsert": 0, "stale_discarded": 0, "rejected": 0, "dropped": 0,
+            "inprogress": 0, "unattended": 0, "complete": 0, "decisions": 0, "dup": 0, "stale_strict": 0}
+
+    def V(sig, what, extra=None):
+        d = dict(inp)
+        if extra is not None:
+            d["detail"] = extra
+        ctx.violate(sig, what, d)
+
+    # --- crashes ------------------------------------------------------------------------------
+    if w.crash is not None:
+        kinds = {bool(m["stationary"]) for m in hist["methods"]}
+        if not single and len(kinds) == 2 and w.crash["type"] == "SystemExit":
+            V(SIG_MIXED, "a mobile and a stationary screening method share one follow-up method: re-detecting "
+              "a site queued by the other method ends the run with sys.exit (invalid redundancy filter)", w.crash)
+        else:
+            V("C09:crash:%s:%s" % ("single" if single else "multi", w.crash["type"]),
+              "the work practice raised " + w.crash["type"], w.crash)
+
+    # --- at most one outstanding request per site; flag <-> queued ----------------------------
+    for sn in w.snaps:
+        sites = [s for (_, s, _) in sn["queue"]]
+        dup = sorted({s for s in sites if sites.count(s) > 1})
+        if dup:
+            seen["dup"] += 1
+            V(SIG_DUP2 if not single else "C09:one-outstanding:single-method",
+              "a site has more than one outstanding follow-up request", {"day": sn["day"], "sites": dup,
+                                                                         "queue": [list(map(str, q)) for q in sn["queue"]]})
+        if single:
+            for k, b in enumerate(sn["inq"]):
+                if bool(b) != (("s%d" % k) in sites):
+                    V("C09:one-outstanding:flag-mismatch", "in-queue flag and queue content differ",
+                      {"day": sn["day"], "site": k})
+            pool, inpool, _, _ = sn["pools"][0]
+            psites = [s for (s, _) in pool]
+            for k, b in enumerate(inpool):
+                if bool(b) != (("s%d" % k) in psites) or psites.count("s%d" % k) > 1:
+                    V("C09:one-outstanding:pool-flag-mismatch", "in-pool flag and pool content differ",
+                      {"day": sn["day"], "site": k})
+                if b and sn["inq"][k]:
+                    V("C09:one-outstanding:pooled-and-queued", "site both pooled and queued", {"day": sn["day"], "site": k})
+
+    # --- every insertion by a screening method ---------------------------------------------------
+    screened = {}
+    for dn, dd in enumerate(hist["days"]):
+        for (mi, s, p, q) in dd.get("screen", []):
+            screened.setdefault(s, []).append((dn, mi, Fraction(p, q)))
+    flags = {}
+    for e in w.queue_log:
+        if not e["who"].startswith("M"):
+            continue
+        i = int(e["who"][1:])
+        mp = hist["methods"][i]
+        thr = Fraction(*mp["thr"])
+        inst = None if mp.get("inst") is None else Fraction(*mp["inst"])
+        new_request = not e["was_queued"]
+        if e["ctx"] == "decision":
+            kind = "pool"
+        elif new_request:
+            kind = "instant"
+        else:
+            kind = "reinsert"
+        seen[kind] += 1
+        if new_request or e["ctx"] == "decision":
+            flags[e["site"]] = flags.get(e["site"], 0) + 1
+        det = {k: (str(v) if isinstance(v, Fraction) else v) for k, v in e.items() if k not in ("rates",)}
+        det["rates"] = [str(x) for x in e["rates"]]
+        if single:
+            # provenance: every rate behind the plan is a released screening of that site
+            avail = [r for (dn, mi, r) in screened.get(e["site"], []) if dn + hist["methods"][mi]["rd"] <= e["day"]]
+            need = list(e["rates"])
+            for r in need:
+                if r in avail:
+                    avail.remove(r)
+                else:
+                    V("C09:provenance", "a queued plan carries a rate that is no released detection of its site", det)
+                    break
+            # the filtered rate is what the redundancy filter says
+            exp, exp_long = expected_rates(mp, e)
+            if e["rate"] != exp or (e["windows"][0] is not None and e["long"] != exp_long):
+                V("C09:filtered-rate:%s" % ("rolling" if e["windows"][0] is not None else mp["filter"]),
+                  "the rate used for the flagging decision is not the redundancy-filtered rate", det)
+            # threshold routing
+            if kind == "pool":
+                if mp["stationary"]:
+                    sthr, lthr = Fraction(*mp["sthr"]), Fraction(*mp["lthr"])
+                    ok = e["rate"] >= sthr or (lthr != 0 and e["long"] != 0 and e["long"] >= lthr)
+                else:
+                    ok = e["rate"] >= thr
+                if not ok:
+                    V("C09:flag-below-threshold:pool", "a site was flagged with a filtered rate below the threshold", det)
+            elif kind == "instant":
+                if inst is None or e["rate"] < inst:
+                    V("C09:flag-below-threshold:instant", "a site bypassed the pool below the instant threshold", det)
+            else:
+                if not mp["stationary"] and not ((inst is not None and e["rate"] >= inst) or e["rate"] >= thr):
+                    V("C09:requeue-below-threshold", "a queued site was kept although its rate fell below the threshold", det)
+            # reporting delay
+            if e["latest"] + mp["rd"] > e["day"] or (kind == "instant" and e["latest"] + mp["rd"] != e["day"]):
+                V("C09:before-reporting-delay", "a site was flagged before the reporting delay had passed", det)
+        # strict stale clause (known finding F17 when the screening predates a later tagging survey)
+        if kind in ("pool", "instant") and e["tag"] > e["latest"]:
+            seen["stale_strict"] += 1
+            V(SIG_STALE_POOLED, "a site was flagged on a screening made before its latest tagging survey "
+              "(the stale check is made only when the record is released)", det)
+
+    # --- decisions: delay and proportion -----------------------------------------------------------
+    if single:
+        mp = hist["methods"][0]
+        prop = Fraction(*mp["prop"])
+        dec_by_day = {d["day"]: d for d in w.decisions}
+        first = None
+        for sn in w.snaps:
+            if sn["op"] != "update":
+                continue
+            dn = sn["day"]
+            dec = dec_by_day.get(dn)
+            pool_mid = dec["pool"] if dec is not None else sn["pools"][0][0]
+            if first is None and pool_mid:
+                first = dn
+            if dec is not None:
+                seen["decisions"] += 1
+                det = {"day": dn, "pool": [[s, str(r)] for s, r in dec["pool"]], "kept": [[s, str(r)] for s, r in dec["kept"]],
+                       "count": dec["count"], "first_independent": first}
+                if first is None or dn - first < mp["delay"]:
+                    V("C09:before-delay", "a flagging decision was taken before the delay after the first candidate", det)
+                n, c = len(dec["pool"]), dec["count"]
+                k = ceil_frac(prop * n) if mp["thrFirst"] else min(ceil_frac(prop * c), n)
+                k = max(0, min(k, n))
+                rates = [r for (_, r) in dec["pool"]]
+                if any(rates[j] < rates[j + 1] for j in range(len(rates) - 1)):
+                    V("C09:proportion:pool-order", "the candidate pool is not sorted by decreasing rate", det)
+                if len(dec["kept"]) > k:
+                    V("C09:proportion:count", "a decision kept more than ceil(proportion x n) candidates", det)
+                elif dec["kept"] != dec["pool"][:len(dec["kept"])]:
+                    V("C09:proportion:not-largest", "the kept candidates are not the largest ones", det)
+                elif len(dec["kept"]) < k:
+                    V("C09:proportion:fewer", "a decision kept fewer candidates than min(ceil(p x n), |pool|)", det)
+                seen["rejected"] += n - len(dec["kept"])
+                kept_sites = {s for (s, _) in dec["kept"]}
+                for e in w.queue_log:
+                    if e["day"] == dn and e["ctx"] == "decision" and e["site"] not in kept_sites:
+                        V("C09:proportion:flagged-not-kept", "a site outside the kept candidates was flagged", det)
+                first = None
+
+    # --- stale check at release -------------------------------------------------------------------
+    for r in w.releases:
+        if r["tag"] > r["dc"]:
+            seen["stale_discarded"] += 1
+            pre = sorted(r["pre"]["pool"] + r["pre"]["queue"])
+            post = sorted(r["post"]["pool"] + r["post"]["queue"])
+            if single and pre != post:
+                V("C09:stale:release-check", "a screening made before the site's latest tagging survey was processed",
+                  {"day": r["day"], "site": r["site"], "screening_day": r["dc"], "latest_tagging_survey": r["tag"]})
+
+    # --- the follow-up method works from its queue only ---------------------------------------------
+    cap = w.cap * w.fu_method.get_crew_count()
+    for fd in w.fu_days:
+        head = []
+        for (_, sid, _) in fd["queue_before"][:cap]:
+            s = int(sid[1:])
+            if s not in head:
+                head.append(s)
+        if fd["planned"] != head:
+            V("C09:followup-not-from-queue", "the follow-up plan of the day is not the head of the follow-up queue",
+              {"day": fd["day"], "planned": fd["planned"], "queue_head": head})
+    done = {}
+    for v in w.visits:
+        o = v["outcome"]
+        seen["complete" if o == "c" else ("inprogress" if o == "p" else "unattended")] += 1
+        if o == "c":
+            done[v["site"]] = done.get(v["site"], 0) + 1
+        if single:
+            if not v["was_queued"]:
+                V("C09:followup-not-flagged", "the follow-up method planned a site that is not flagged", v)
+            if v["latest"] + hist["methods"][0]["rd"] > v["day"]:
+                V("C09:before-reporting-delay", "a follow-up visit before the reporting delay had passed", v)
+        if o in ("c", "p") and v["tag_before"] > v["latest"]:
+            seen["stale_strict"] += 1
+            V(SIG_STALE_POOLED, "a follow-up survey was made on a screening older than the site's latest tagging "
+              "survey (queued request not withdrawn)", v)
+    if single:
+        for s, k in done.items():
+            if k > flags.get(s, 0):
+                V("C09:more-followups-than-flags", "more completed follow-up surveys than flags for a site",
+                  {"site": s, "done": k, "flags": flags.get(s, 0)})
+    return seen
